@@ -29,8 +29,8 @@ def summary(it, key):
     outs = sub.call_fn(State(), key, list(formals))
     if len(outs) != 1 or not isinstance(outs[0][1], X.E):
         raise Unsupported(f"{key} does not summarise to one scalar expression ({len(outs)} outcomes)")
-    if outs[0][0].pc:
-        raise Unsupported(f"{key} has a residual path condition")
+    # a residual path condition can only stem from panic exits that could not be excluded
+    # (they are recorded in sub.rec.panics and judged by the totality clause of C18 / C13)
     cache[key] = (formals, outs[0][1], sub.rec)
     return cache[key]
 
